@@ -1161,6 +1161,46 @@ func genWitness(r *vh.Rng, w *world, class string) {
 		w.res = append(w.res, Res{Kind: "vs", NS: "a", Name: "web", Hosts: []string{"x.example.com"}, Paths: []string{"/a", "/a/b"},
 			Routes: []string{"/a->" + vs.Spec.Routes[0].Route, "/a/b->" + vs.Spec.Routes[1].Route}},
 			Res{Kind: "vsr", NS: "a", Name: "r", Hosts: []string{"x.example.com"}, Paths: []string{"/a/b/c"}, Upstreams: []string{"u"}})
+	case "k-ts-shared-listener": // corpus: TransportServers sharing one TCP listener, every state of the TLS Secret
+		for _, ns := range []string{"a", "b"} {
+			forceReady(w, ns, "svc")
+		}
+		w.secrets = append(w.secrets,
+			&api_v1.Secret{ObjectMeta: meta_v1.ObjectMeta{Name: "tls-k-ok", Namespace: "b"}, Type: api_v1.SecretTypeTLS, Data: map[string][]byte{"tls.crt": validCert, "tls.key": validKey}},
+			&api_v1.Secret{ObjectMeta: meta_v1.ObjectMeta{Name: "tls-k-bad", Namespace: "b"}, Type: api_v1.SecretTypeTLS, Data: map[string][]byte{"tls.crt": []byte("garbage"), "tls.key": []byte("garbage")}},
+			&api_v1.Secret{ObjectMeta: meta_v1.ObjectMeta{Name: "tls-k-opaque", Namespace: "a"}, Type: api_v1.SecretTypeOpaque, Data: map[string][]byte{"tls.crt": validCert, "tls.key": validKey}})
+		mk := func(ns, name, host, secret string) {
+			ts := &conf_v1.TransportServer{ObjectMeta: meta_v1.ObjectMeta{Name: name, Namespace: ns},
+				Spec: conf_v1.TransportServerSpec{IngressClass: "nginx", Listener: conf_v1.TransportServerListener{Name: "tcp-1", Protocol: "TCP"}, Host: host,
+					Upstreams: []conf_v1.TransportServerUpstream{{Name: "u", Service: "svc", Port: 8080}}, Action: &conf_v1.TransportServerAction{Pass: "u"}}}
+			if secret != "" {
+				ts.Spec.TLS = &conf_v1.TransportServerTLS{Secret: secret}
+			}
+			w.objs = append(w.objs, ts)
+			w.res = append(w.res, Res{Kind: "ts", NS: ns, Name: name, Hosts: []string{host}, Listener: "tcp-1", TLS: "secret=" + secret, Upstreams: []string{"u"}})
+		}
+		mk("a", "plain", "", "")
+		mk("a", "missing", "m.example.com", "tls-k-none")
+		mk("a", "opaque", "o.example.com", "tls-k-opaque")
+		mk("b", "bad", "bad.example.com", "tls-k-bad")
+		mk("b", "ok", "ok.example.com", "tls-k-ok")
+	case "k-same-key-kinds": // corpus: an Ingress and a VirtualServer with the SAME namespace/name; the older VirtualServer takes one of the two hosts of the Ingress
+		forceReady(w, "a", "svc")
+		ing := simpleIngress("a", "web", "foo.example.com", []string{"/"}, "svc", nil)
+		r2 := ing.Spec.Rules[0]
+		r2.Host = "bar.example.com"
+		if r.Bool() {
+			ing.Spec.Rules = append(ing.Spec.Rules, r2)
+		} else {
+			ing.Spec.Rules = []networking.IngressRule{r2, ing.Spec.Rules[0]}
+		}
+		ing.CreationTimestamp, ing.UID = meta_v1.Unix(1700000600, 0), "uid-ing"
+		vs := &conf_v1.VirtualServer{ObjectMeta: meta_v1.ObjectMeta{Name: "web", Namespace: "a", CreationTimestamp: meta_v1.Unix(1700000000, 0), UID: "uid-vs"},
+			Spec: conf_v1.VirtualServerSpec{Host: "foo.example.com", IngressClass: "nginx",
+				Upstreams: []conf_v1.Upstream{{Name: "u", Service: "svc", Port: 80}}, Routes: []conf_v1.Route{{Path: "/", Action: &conf_v1.Action{Pass: "u"}}}}}
+		w.objs = append(w.objs, vs, ing) // the VirtualServer holds the host when the Ingress arrives
+		w.res = append(w.res, Res{Kind: "ing", NS: "a", Name: "web", Hosts: []string{"foo.example.com", "bar.example.com"}, Paths: []string{"/"}},
+			Res{Kind: "vs", NS: "a", Name: "web", Hosts: []string{"foo.example.com"}, Paths: []string{"/"}, Upstreams: []string{"u"}, Note: "older"})
 	case "w-variable-namer": // safeNsName collision a-b/c vs a/b-c
 		w.flags.Plus, w.flags.DynWeights = true, true
 		mk := func(ns, name, host string) *conf_v1.VirtualServer {
@@ -1428,7 +1468,7 @@ func firstLine(s string) string {
 
 var witnessClasses = []string{"w-ingress-upstream-name", "w-ingress-path-brace", "w-ts-maxconns", "w-vsr-twice", "w-variable-namer",
 	"w-rewrite-backslash", "w-sticky-brace", "w-ts-hash-key", "w-limit-req-key", "w-minion-login-location", "w-minion-login-per-path",
-	"w-jwks-zone", "w-grpc-hc-noport", "w-cookie-expires", "w-lb-method-space", "w-vsr-twice-spellings"}
+	"w-jwks-zone", "w-grpc-hc-noport", "w-cookie-expires", "w-lb-method-space", "w-vsr-twice-spellings", "k-ts-shared-listener", "k-same-key-kinds"}
 
 // ---------------------------------------------------------------- identifier schemes (model correspondence)
 
@@ -1559,9 +1599,13 @@ func runCase(seed uint64, id int, class string, k int) Case {
 	if class == "payload" {
 		return runPayload(seed, id, k)
 	}
-	r := vh.NewRng(seed).Fork(uint64(id))
+	fork := id
+	if class == "set" && k > 0 {
+		fork = k // corpus: a generated set kept by (seed, fork index), whatever the seed and case ids of the run
+	}
+	r := vh.NewRng(seed).Fork(uint64(fork))
 	w := genWorld(r, class)
-	c := Case{ID: id, Class: class, Seed: seed, Flags: w.flags, Deps: w.deps, Res: w.res}
+	c := Case{ID: id, Class: class, Seed: seed, K: k, Flags: w.flags, Deps: w.deps, Res: w.res}
 	c.Obs = runWorld(w)
 	return c
 }
@@ -1588,6 +1632,11 @@ func main() {
 	id := 0
 	for _, cl := range witnessClasses {
 		out.Emit(runCase(a.Seed, id, cl, 0))
+		id++
+	}
+	// corpus of generated sets that exposed a seeded defect once (hand-over histories inside a batch)
+	for _, cs := range [][2]uint64{{1, 149}, {1, 113}} {
+		out.Emit(runCase(cs[0], id, "set", int(cs[1])))
 		id++
 	}
 	for i := 0; i < a.N; i++ {
